@@ -93,6 +93,29 @@ func harnessErr(f string, a ...interface{}) {
 	os.Exit(2)
 }
 
+// repoDir is the repository the checks build: /repo, unless VERIF_REPO names a snapshot of
+// it (background runs started with `vp run --with-repo`, which must not see edits made to
+// /repo while they run). The harness module's replace directive is pointed at it.
+func repoDir() string {
+	if r := os.Getenv("VERIF_REPO"); r != "" {
+		return r
+	}
+	return "/repo"
+}
+
+func pointModuleAtRepo(c *runCtx) error {
+	if repoDir() == "/repo" {
+		return nil
+	}
+	cmd := exec.Command("go", "mod", "edit", "-replace", "massnet.org/mass-wallet="+repoDir())
+	cmd.Dir = filepath.Join(c.Root, "harness")
+	cmd.Env = goEnv()
+	if b, err := cmd.CombinedOutput(); err != nil {
+		return fmt.Errorf("go mod edit: %v\n%s", err, b)
+	}
+	return nil
+}
+
 func goEnv() []string {
 	e := os.Environ()
 	e = append(e, "GOFLAGS=-mod=mod", "GOPROXY=off", "GOSUMDB=off", "GOTOOLCHAIN=local")
@@ -113,8 +136,8 @@ func goEnv() []string {
 func perfOverlay(c *runCtx) []string {
 	type sub struct{ file, old, new, what string }
 	subs := []sub{
-		{"/repo/masswallet/keystore/snacl/snacl.go", "\tdebug.FreeOSMemory()\n", "\t_ = debug.FreeOSMemory\n", "snacl: FreeOSMemory neutralised"},
-		{"/repo/masswallet/txmgr/utxostore.go", "count >= 20000", "count >= 2", "utxostore: credits per removal round scaled 20000 -> 2"},
+		{repoDir() + "/masswallet/keystore/snacl/snacl.go", "\tdebug.FreeOSMemory()\n", "\t_ = debug.FreeOSMemory\n", "snacl: FreeOSMemory neutralised"},
+		{repoDir() + "/masswallet/txmgr/utxostore.go", "count >= 20000", "count >= 2", "utxostore: credits per removal round scaled 20000 -> 2"},
 	}
 	repl := map[string]string{}
 	c.Overlays = nil
@@ -210,6 +233,11 @@ func main() {
 		defer os.RemoveAll(scratch)
 		c.Bin = filepath.Join(scratch, "vworker")
 		t0 := time.Now()
+		if err := pointModuleAtRepo(c); err != nil {
+			fmt.Printf("HARNESS-ERROR %v\n", err)
+			code = 2
+			return
+		}
 		if err := buildWorker(c, c.Bin); err != nil {
 			fmt.Printf("HARNESS-ERROR %v\n", err)
 			code = 2
